@@ -654,6 +654,8 @@ class MixedLogReader(object):
                 self.available_source_ids.add(header.source_identifier)
 
             self.clear_filters()
+            # Sample each message type from the start of the file, not from where the previous type's sample ended.
+            self.rewind()
 
         self.return_header = stored_return_header
         self.rewind()
